@@ -6,6 +6,11 @@ VERIF = os.path.dirname(os.path.abspath(__file__))
 
 # property id -> (level category, technique, level text, level note, design ref)
 CLAIMED = {
+    "C04": ("exploration",
+            "attribution oracle inside handlers (Src identity and LookupPublicKeyInHandler vs the true sender's key) under honest traffic and concrete adversaries (SSH auth interleaver, raw P2PKE on-path attacker, wrong-identity addresses, rejected peers)",
+            "Six-node all-pairs traffic on every secure stack with the source's key looked up inside each callback; identity-of-X-at-transport-of-Y addresses must fail and never reach Y; an SSH client interleaves key queries for a victim's key with a real authentication (31 orderings); a raw Noise/P2PKE peer with its own key answers a victim-addressed InitHello and injects handshakes/data at an established peer's transport address across a rekey; whitelists of p2pkeswarm, quicswarm and wlswarm face telling and asking rejected peers.",
+            "TLS's CertificateVerify is trusted for QUIC (no raw certificate-claiming client); adversaries are the concrete catalogue.",
+            "DESIGN.md §4 C04"),
     "C08": ("exploration",
             "crash oracle: in-process panic capture for synchronous entry points, child-process death (inputs logged to disk before delivery) for layers running in library goroutines, plus a liveness probe after each batch",
             "Hundreds of thousands of hostile inputs per run: random, structure-aware field mutations of genuine packets, contradiction sequences against reassembly state and byte-level mutations, fed to address/key/peer-id parsers, the five demultiplexers, P2PKE sessions in every handshake state and role, channels with 0-3 occupied slots, DHT handlers and cache calls, and through the harness's wire transport to fragswarm, mbapp (tell/ask/reply paths), multiplexers and p2pkeswarm; each layer must still pass a valid message afterwards.",
